@@ -56,12 +56,21 @@ class World:
         self.n_clients = 0
         self.backends = []
         self.fps = {}           # client -> last parsed fingerprint
+        self.kp_owner = []      # key package index -> client
+        self.welcome_ev = {}    # welcome index -> number of the add commit that produced it
         self.do("world")
     def do(self, line):
         out = self.h.cmd(line)
         res, _, fp = out.partition(" | ")
         self.trace.append((line, res, fp))
         t = line.split()
+        if t[0] == "kp" and res.startswith("kp="):
+            self.kp_owner.append(int(t[1]))
+        if t[0] == "add":
+            m = re.match(r"ev=(\d+) .* w=([\d,]*)", res)
+            if m:
+                for x in [y for y in m.group(2).split(",") if y]:
+                    self.welcome_ev[int(x)] = int(m.group(1))
         if len(t) > 1 and t[1].isdigit() and t[0] not in ("rewrap", "retag"):
             f = parse_fp(fp)
             if f is not None or fp in ("nogroup", "norecord"):
@@ -84,13 +93,16 @@ class World:
         self.n_clients += 1
         self.backends.append(backend)
         return i
-    def setup_group(self, n, backends, admins, retention=5, relays=1):
-        for i in range(n):
+    def setup_group(self, n, backends, admins, retention=5, relays=1, outsiders=0):
+        """n initial members (client 0 creates, 1..n-1 join by welcome) and `outsiders` further clients that hold a key
+        package but no group until an admin adds them"""
+        for i in range(n + outsiders):
             self.add_client(backends[i], retention)
         kps = []
-        for i in range(1, n):
+        for i in range(1, n + outsiders):
             r, _ = self.do(f"kp {i}")
-            kps.append(r.split("=")[1])
+            if i < n:
+                kps.append(r.split("=")[1])
         r, _ = self.do(f"create 0 {','.join(map(str, admins))} 1 {relays} {','.join(kps) or '-'}")
         ws = r.split("w=")[1].split(",") if "w=" in r and r.split("w=")[1] else []
         for i, w in zip(range(1, n), ws):
@@ -107,8 +119,25 @@ class World:
         n = int(m.group(1))
         self.events[n] = {"kind": kind, "sender": sender, "ts": int(m.group(3)), "idnum": int(m.group(2)), "mid": m.group(4),
                           "parent_token": before["token"] if before else None, "parent_epoch": before["epoch"] if before else None,
+                          "parent_nid": before["nid"] if before else None, "tag_nid": before["nid"] if before else None,
+                          "sender_admin": (str(sender) in before["admins"].split(",")) if before else None,
                           "line": line}
         return n
+    def republish(self, line):
+        """`rewrap n ts` / `retag n j`: an observer publishes the same ciphertext under a new wrapper (fresh ephemeral key;
+        chosen timestamp / the nostr group id client j holds now)"""
+        t = line.split()
+        r, _ = self.do(line)
+        m = re.match(r"ev=(\d+) idnum=(\d+) ts=(-?\d+)", r)
+        if not m:
+            return None
+        k, victim = int(m.group(1)), int(t[1])
+        self.events[k] = dict(self.events.get(victim, {}))
+        self.events[k].update({"ts": int(m.group(3)), "idnum": int(m.group(2)), "rewrap_of": victim, "line": line})
+        if t[0] == "retag":
+            f = self.fps.get(int(t[2]))
+            self.events[k].update({"retag": True, "tag_nid": f["nid"] if f else None})
+        return k
     def deliver(self, c, n):
         before = self.fps.get(c)
         r, fp = self.do(f"deliver {c} {n}")
@@ -117,6 +146,8 @@ class World:
             k = int(m.group(1))
             self.events[k] = {"kind": "commit", "sender": c, "ts": int(m.group(3)), "idnum": int(m.group(2)), "mid": None,
                               "parent_token": before["token"] if before else None, "parent_epoch": before["epoch"] if before else None,
+                              "parent_nid": before["nid"] if before else None, "tag_nid": before["nid"] if before else None,
+                              "sender_admin": (str(c) in before["admins"].split(",")) if before else None,
                               "line": "auto-commit", "sub": "auto"}
         return r.split()[0], before, self.fps.get(c)
 
@@ -127,23 +158,63 @@ def is_refusal(res):
 
 # ---- generators ------------------------------------------------------------------------------
 
-def gen_race_history(w, rng, tier, regime=None, restarts=True, ties=True, p_rewrap=0.25, p_leave=0.0, p_adv=0.25, p_hole=0.3, p_upd=0.2):
+def view_admins(w, c):
+    """the admin set client c currently holds (from its last fingerprint)"""
+    f = w.fps.get(c)
+    return {int(x) for x in f["admins"].split(",") if x} if f else set()
+
+def gen_data_update(w, rng, c, alive, others, tok, gone=(), p_nid=0.0):
+    """one `update_group_data` call by client c: one or two fields; admin-set changes include demoting a
+    concurrent committer, demoting oneself, promoting a member, and (rarely) lists the library must refuse"""
+    fields = {}
+    kinds = ["name", "desc", "relays", "admins", "admins"] + (["nid"] if rng.random() < p_nid else [])
+    for k in rng.sample(kinds, rng.choice([1, 1, 1, 2])):
+        if k == "name":
+            fields["name"] = tok
+        elif k == "desc":
+            fields["desc"] = tok
+        elif k == "relays":
+            fields["relays"] = rng.choice([0, 1, 2, 3])
+        elif k == "nid":
+            fields["nid"] = tok
+        else:
+            cur = view_admins(w, c) & set(alive)
+            r = rng.random()
+            if r < 0.35 and [o for o in others if o in cur]:
+                new = cur - {rng.choice([o for o in others if o in cur])}          # demote a concurrent committer
+            elif r < 0.6:
+                new = cur | {rng.choice(alive)}                                     # promote somebody
+            elif r < 0.75 and len(cur) > 1:
+                new = cur - {c}                                                     # demote oneself
+            elif r < 0.85:
+                new = set(rng.sample(alive, rng.randint(1, len(alive))))            # an unrelated set
+            elif r < 0.93 and gone:
+                new = cur | {rng.choice(list(gone))}                                # a removed member: must be refused
+            else:
+                new = set()                                                         # empty: must be refused
+            fields["admins"] = ",".join(map(str, sorted(new))) or "-"
+    return " ".join(f"{k} {v}" for k, v in fields.items())
+
+def gen_race_history(w, rng, tier, regime=None, restarts=True, ties=True, p_rewrap=0.25, p_leave=0.0, p_adv=0.25, p_hole=0.3, p_upd=0.2, p_data=0.5, p_nid=0.3, p_retag=0.2, p_add=0.3, p_remove=0.12):
     """setup, then rounds of concurrent actions on one epoch, per-client shuffled delivery with
     duplication, then quiescence rounds"""
     n = rng.choice([2, 3, 3, 4, 5] if tier == "quick" else [2, 3, 4, 5, 6])
-    backends = [rng.choice(["mem", "sql"]) for _ in range(n)]
+    # outsiders: clients that hold a key package but no group until an admin adds them (between rounds, uncontended)
+    outsiders = rng.choice([0, 0, 1, 2]) if (p_add > 0 and n <= 4) else 0
+    backends = [rng.choice(["mem", "sql"]) for _ in range(n + outsiders)]
     nadm = rng.randint(1, n)
     admins = sorted(rng.sample(range(n), nadm))
     if 0 not in admins:
         admins = [0] + admins[:-1] if len(admins) > 1 else [0]
     retention = rng.choice([5, 5, 5, 2, 1])
-    w.meta = {"n": n, "backends": backends, "admins": admins, "retention": retention, "p_rewrap": p_rewrap, "p_leave": p_leave}
-    w.setup_group(n, backends, admins, retention)
+    w.meta = {"n": n + outsiders, "members": list(range(n)), "backends": backends, "admins": admins, "retention": retention, "p_rewrap": p_rewrap, "p_leave": p_leave}
+    w.setup_group(n, backends, admins, retention, outsiders=outsiders)
+    pool = list(range(n, n + outsiders))
     regime = regime or rng.choice(["inorder", "causal", "unrestricted"])
-    apply_mode = {c: rng.choice(["echo", "echo", "immediate"]) for c in range(n)}
+    apply_mode = {c: rng.choice(["echo", "echo", "immediate"]) for c in range(n + outsiders)}
     w.meta.update({"regime": regime, "apply": apply_mode})
     ts = 100
-    delivered = {c: set() for c in range(n)}
+    delivered = {c: set() for c in range(n + outsiders)}
     tok = 0
     alive = list(range(n))
     # an admin removes a member first, so that the ratchet tree has a blank leaf below later committers
@@ -158,6 +229,7 @@ def gen_race_history(w, rng, tier, regime=None, restarts=True, ties=True, p_rewr
                 w.do("merge 0")
                 alive.remove(v)
                 w.meta["gone"] = [v]
+                w.never_told = {v}
                 for c in alive:
                     if c != 0:
                         w.deliver(c, e)
@@ -165,6 +237,26 @@ def gen_race_history(w, rng, tier, regime=None, restarts=True, ties=True, p_rewr
     rounds = rng.randint(1, 3 if tier == "quick" else 5)
     for rd in range(rounds):
         new = []
+        # an admin adds an outsider — outside any race, applied by everybody in order — and the newcomer joins by its welcome
+        if pool and rng.random() < p_add:
+            adders = [c for c in alive if c in view_admins(w, c) and (w.fps.get(c) or {}).get("state") == "a"]
+            if adders:
+                a = rng.choice(adders); j = pool[0]; ts += 2
+                kp = w.kp_owner.index(j)
+                e = w.publish(f"add {a} {kp} {ts}", "commit", a)
+                if e is not None:
+                    w.events[e]["apply"] = "immediate"
+                    w.do(f"merge {a}")
+                    for c in alive:
+                        if c != a:
+                            w.deliver(c, e)
+                    wi = [k for k, v in w.welcome_ev.items() if v == e]
+                    if wi:
+                        w.do(f"welcome {j} {wi[0]} 0")
+                        r2, _ = w.do(f"accept {j} {wi[0]}")
+                        if r2 == "ok":
+                            pool.pop(0); alive.append(j)
+                ts += 3
         # messages before the race
         for _ in range(rng.randint(0, 2)):
             s = rng.choice(alive); tok += 1; ts += 1
@@ -176,9 +268,18 @@ def gen_race_history(w, rng, tier, regime=None, restarts=True, ties=True, p_rewr
         base = ts + 10
         stamps = [base + rng.choice([0, 0, 1, 2, -1]) for _ in committers] if ties else rng.sample(range(base - 2, base + 4), len(committers))
         for c, st in zip(committers, stamps):
-            if c in admins and rng.random() < 0.4:
+            # the admin set changes during the history: who may update the group data is read from the client's own view;
+            # now and then a non-admin tries as well (refused by the library)
+            if c in view_admins(w, c) and len(alive) > 2 and rng.random() < p_remove:
+                # an admin removes somebody in the middle of a race (the victim keeps being scheduled: whether it is out depends
+                # on which commit it sees first — an eviction is final even if the removing commit loses)
+                e = w.publish(f"remove {c} {rng.choice([v for v in alive if v != c])} {st}", "commit", c)
+            elif (c in view_admins(w, c) and rng.random() < p_data) or rng.random() < 0.05:
                 tok += 1
-                e = w.publish(f"data {c} name {tok} {st}", "commit", c)
+                upd = gen_data_update(w, rng, c, alive, [o for o in committers if o != c], tok, w.meta.get("gone", ()), p_nid)
+                e = w.publish(f"data {c} {upd} {st}", "commit", c)
+                if e is None and rng.random() < 0.5:
+                    e = w.publish(f"selfupdate {c} {st}", "commit", c)
             else:
                 e = w.publish(f"selfupdate {c} {st}", "commit", c)
             if e is not None:
@@ -189,19 +290,25 @@ def gen_race_history(w, rng, tier, regime=None, restarts=True, ties=True, p_rewr
         # an observer re-wraps a published event (same ciphertext, fresh ephemeral key, chosen timestamp)
         if new and rng.random() < w.meta.get("p_rewrap", 0.25):
             victim = rng.choice(new)
-            r, _ = w.do(f"rewrap {victim} {base + rng.choice([-8, -3, 0, 4, 9] if ties else [-8, -3, 4, 9])}")
-            m = re.match(r"ev=(\d+) idnum=(\d+) ts=(-?\d+)", r)
-            if m:
-                k = int(m.group(1))
-                w.events[k] = dict(w.events[victim]); w.events[k].update({"ts": int(m.group(3)), "idnum": int(m.group(2)), "rewrap_of": victim, "line": f"rewrap {victim}"})
+            k = w.republish(f"rewrap {victim} {base + rng.choice([-8, -3, 0, 4, 9] if ties else [-8, -3, 4, 9])}")
+            if k is not None:
                 new.append(k)
+        # an observer re-publishes an event (of this round or an earlier one) under the nostr group id some client holds NOW
+        # (the `h` tag is not authenticated); interesting once somebody rotated the id
+        if w.events and rng.random() < p_retag:
+            victim = rng.choice(new) if new and rng.random() < 0.7 else rng.choice(sorted(w.events))
+            if not w.events[victim].get("unmodelled"):
+                # with ties: the original timestamp (the copy then competes with the original by event id); without: a distinct one
+                k = w.republish(f"retag {victim} {rng.choice(alive)}" + ("" if ties and rng.random() < 0.5 else f" {base + rng.choice([-7, -4, 5, 8])}"))
+                if k is not None:
+                    new.append(k)
         # a member asks to leave (a proposal; an admin receiver auto-commits it)
         if rng.random() < w.meta.get("p_leave", 0.0):
             s = rng.choice(alive); ts += 1
             e = w.publish(f"leave {s} {ts}", "proposal", s)
             if e is not None: new.append(e)
         # a NON-admin member builds a Remove commit with the MLS library directly, with a chosen timestamp
-        nonadmins = [c for c in alive if c not in admins]
+        nonadmins = [c for c in alive if c not in view_admins(w, c)]
         if nonadmins and rng.random() < p_adv:
             a = rng.choice(nonadmins); victim = rng.choice([c for c in alive if c != a])
             if rng.random() < 0.5:
@@ -264,8 +371,8 @@ def quiesce(w, max_rounds=5):
     for rd in range(max_rounds):
         changed = False
         for c in range(w.n_clients):
-            if c in gone_clients(w):
-                continue
+            if c in getattr(w, "never_told", ()) or w.fps.get(c) is None:
+                continue        # (removed before the races and deliberately never told; or holds no group)
             for e in sorted(w.events):
                 _, before, after = w.deliver(c, e)
                 if proj(before) != proj(after):
@@ -278,12 +385,25 @@ def quiesce(w, max_rounds=5):
 
 # ---- oracles -----------------------------------------------------------------------------------
 
+def root_of(w, n):
+    """the original of a re-wrapped / re-tagged copy (same ciphertext)"""
+    seen = set()
+    while w.events.get(n, {}).get("rewrap_of") is not None and n not in seen:
+        seen.add(n); n = w.events[n]["rewrap_of"]
+    return n
+
 def mip03_winner_chain(w):
     """follow, from the creation state, the minimum (ts, idnum) commit among those created on the
     current state; the resulting state of a commit is learnt from any client observed right after it
     applied that commit"""
     result_token = {}
     prev = {}
+    def root(n):
+        # a re-wrapped / re-tagged copy is the same commit (same ciphertext): what applying it leads to is learnt for the original
+        seen = set()
+        while w.events.get(n, {}).get("rewrap_of") is not None and n not in seen:
+            seen.add(n); n = w.events[n]["rewrap_of"]
+        return n
     for i, (cmd, res, fp) in enumerate(w.trace):
         t = cmd.split()
         f = parse_fp(fp)
@@ -295,8 +415,9 @@ def mip03_winner_chain(w):
                 e = w.events.get(n)
                 # the state a client is in right after it APPLIED the commit (it was in the parent state before)
                 # (directly from the parent state, or after the rollback this delivery triggered)
-                if e is not None and before is not None and f["token"] != before["token"]:
-                    result_token.setdefault(n, set()).add(f["token"])
+                # (an evicted client's state token does not move: nothing to learn from it)
+                if e is not None and before is not None and f["token"] != before["token"] and f["state"] == "a":
+                    result_token.setdefault(root(n), set()).add(f["token"])
             if t[0] == "merge" and res == "ok" and before is not None and f["token"] != before["token"]:
                 mine = [n for n, e in w.events.items() if e["sender"] == c and e["kind"] == "commit" and e["parent_token"] == before["token"]]
                 if mine:
@@ -308,16 +429,46 @@ def mip03_winner_chain(w):
 def oracle_world(w):
     """returns (failures, facts).  failures carry a mechanism signature."""
     fails = []
-    SHARED = {"rollback-before-authorisation": ["C01", "C05", "C06"], "refused-after-rollback": ["C06", "C01"],
+    SHARED = {"rollback-before-authorisation": ["C01", "C05", "C06", "C02"], "refused-after-rollback": ["C06", "C01"],
               "hydrated-timestamp-zero": ["C01", "C11"], "handshake-before-predecessor-blocked": ["C01", "C02"],
-              "record-not-synced": ["C08", "C06"], "rewrapped-commit-rollback": ["C06", "C01", "C07", "C02"]}
+              "record-not-synced": ["C08", "C06"], "rewrapped-commit-rollback": ["C06", "C01", "C07", "C02"],
+              "retagged-commit-rollback": ["C06", "C01", "C02"], "h-rotation-in-flight": ["C02", "C01"]}
     def fail(prop, sig, step, what):
         fails.append({"kind": "oracle", "prop": prop, "props": sorted(set([prop] + SHARED.get(sig, []))), "signature": sig,
                       "what": f"world {w.id} step {step}: {what}", "replay_body": w.text(step, what)})
     commits = {n: e for n, e in w.events.items() if e["kind"] == "commit"}
+    # ---- what each MLS state (token) says about roster and group data, as first observed (C05 / C08) ----
+    def gdata(f):
+        return (f["members"], f["admins"], f["name"], f["desc"], f["nid"], f["relays"])
+    GD = ("members", "admins", "name", "description", "nostr_group_id", "relays")
+    token_data = {}
+    for i, (cmd, res, fp) in enumerate(w.trace):
+        f = parse_fp(fp)
+        if f is not None and f["token"] >= 0 and f["state"] == "a":
+            if f["token"] not in token_data:
+                token_data[f["token"]] = (gdata(f), i)
+            elif token_data[f["token"]][0] != gdata(f) and f["sync"]:
+                # C08: the stored record is a function of the MLS state — two observations of the SAME MLS state
+                # (same epoch authenticator; any client, any time, incl. after a rollback) show the same record
+                d0, i0 = token_data[f["token"]]
+                diff = [n for n, x, y in zip(GD, d0, gdata(f)) if x != y]
+                fail("C08", "record-differs-for-same-mls-state", i, f"after `{cmd}` the record fields {diff} differ from those seen at step {i0} for the same MLS state T{f['token']}: {d0} vs {gdata(f)}")
+    def check_applied(i, cmd, c, n_ev, before, f):
+        """C05: client c applied commit n_ev (token changed): whatever changed of roster / admins / data was changed by an
+        author who is an admin in the state the commit was applied on (= the state it was created in)"""
+        ev = w.events.get(n_ev)
+        if ev is None or ev.get("parent_token") is None or ev["parent_token"] not in token_data:
+            return
+        parent = token_data[ev["parent_token"]][0]
+        changed = [n for n, x, y in zip(GD, parent, gdata(f)) if x != y]
+        if changed and str(ev["sender"]) not in parent[1].split(","):
+            fail("C05", "nonadmin-commit-accepted", i, f"`{cmd}`: c{c} applied commit {n_ev} by c{ev['sender']}, who is not an admin in the state it applies to (admins [{parent[1]}]), and {changed} changed: {parent} -> {gdata(f)}")
     # ---- per-step predicates (C06 refuse-frame, C07 redelivery, C08 sync) ----
     seen_effect = {}     # (client, event) -> True once a delivery of it was handled with effect
     prev_fp = {}
+    gnf_first = {}       # (client, event) -> step at which the event was refused as GroupNotFound because its tag was not the id in force
+    w.gnf_first = gnf_first
+    copy_knock = set()   # clients at which a copy of a commit (same ciphertext, another wrapper) invalidated stored messages / records
     for i, (cmd, res, fp) in enumerate(w.trace):
         t = cmd.split()
         if res == "panic" or fp == "fp-panic":
@@ -325,10 +476,42 @@ def oracle_world(w):
         f = parse_fp(fp)
         c = int(t[1]) if len(t) > 1 and t[1].isdigit() and t[0] not in ("rewrap", "retag") else None
         if f is not None and not f["sync"] and f["state"] == "a":
-            fail("C08", "record-not-synced", i, f"stored record (epoch/name) differs from the MLS state after `{cmd}`")
+            fail("C08", "record-not-synced", i, f"stored record (epoch / name / description / admins / relays / nostr group id) differs from the MLS state after `{cmd}`")
+        if c is not None and f is not None and prev_fp.get(c) is not None:
+            b4 = prev_fp[c]
+            if b4["token"] == f["token"] and b4["token"] >= 0 and gdata(b4) != gdata(f) and b4["state"] == "a" and f["state"] == "a":
+                # C05: roster / admins / data change only by applying a commit (the MLS state did not move here)
+                fail("C05", "data-changed-without-commit", i, f"`{cmd}` changed {[n for n, x, y in zip(GD, gdata(b4), gdata(f)) if x != y]} while the MLS state stayed T{f['token']}")
+            if t[0] == "merge" and res == "ok" and b4["token"] != f["token"]:
+                mine = [n for n, e in w.events.items() if e["sender"] == c and e["kind"] == "commit" and e["parent_token"] == b4["token"]]
+                if mine:
+                    check_applied(i, cmd, c, max(mine), b4, f)
         if t[0] == "deliver" and c is not None:
             before = prev_fp.get(c)
             r0 = res.split()[0]
+            evr = w.events.get(int(t[2]), {})
+            if before is not None and f is not None and before["state"] == "a" and evr.get("tag_nid") is not None:
+                # C08 routing: the group is looked up by the event's `h` tag among the ids IN FORCE at the receiver now
+                routed = evr["tag_nid"] == before["nid"]
+                recb = before["recs"].get(int(t[2]))
+                if recb is not None and recb[0] in ("f", "x"):
+                    want = "unprocessable" if routed else "previously_failed"
+                    if r0 != want:
+                        fail("C08", "routing-not-by-current-id", i, f"`{cmd}`: blocked event tagged I{evr['tag_nid']} at a client holding I{before['nid']}: {r0}, expected {want}")
+                elif (r0 == "err:GroupNotFound") != (not routed) and not (routed and f["epoch"] < before["epoch"]):
+                    # (routed, rolled back, and not found under the RESTORED id: the retagged-commit mechanism, reported by the frame rule)
+                    fail("C08", "routing-not-by-current-id", i, f"`{cmd}`: event tagged I{evr['tag_nid']} at a client holding I{before['nid']} returned {r0}")
+                if r0 == "err:GroupNotFound" and not routed and (c, int(t[2])) not in gnf_first:
+                    gnf_first[(c, int(t[2]))] = i
+            if before is not None and f is not None and evr.get("kind") == "commit":
+                n_ev0 = int(t[2])
+                if evr.get("rewrap_of") is not None or any(x.get("rewrap_of") == n_ev0 for x in w.events.values()):
+                    inval = lambda g: {m["id"] for m in g["msgs"] if m["state"] == "x"}
+                    if inval(f) - inval(before) or f["epoch"] < before["epoch"]:
+                        # the same commit under two wrappers: the other wrapper was judged 'better' and the client rolled back —
+                        # also when the re-processing succeeds (the committer's own commit is merged again from the snapshot's
+                        # pending commit): everything filed under the later epoch is invalidated although the state is the same
+                        copy_knock.add(c)
             if before is not None and f is not None:
                 if is_refusal(r0) and proj(before) != proj(f):
                     ev = w.events.get(int(t[2]), {})
@@ -336,11 +519,22 @@ def oracle_world(w):
                     if before["epoch"] > f["epoch"]:
                         sig = "rollback-before-authorisation" if (r0.startswith("err:CommitFromNonAdmin") or ev.get("adv")) else "refused-after-rollback"
                         n_ev = int(t[2])
-                        if ev.get("rewrap_of") is not None or any(x.get("rewrap_of") == n_ev for x in w.events.values()):
+                        if r0 == "err:GroupNotFound" and ev.get("retag"):
+                            # a sibling commit re-published under the receiver's NEW id: found, judged better, rolled back — and
+                            # not found under the id the rollback restored
+                            sig = "retagged-commit-rollback"
+                        elif ev.get("rewrap_of") is not None or any(x.get("rewrap_of") == n_ev for x in w.events.values()):
                             # the same commit ciphertext under two wrappers: the later-applied one is 'better' by
                             # timestamp, the rollback happens, and the ciphertext cannot be decrypted a second time
                             sig = "rewrapped-commit-rollback"
                     fail("C06", sig, i, f"`{cmd}` returned {r0} but the projection changed: {proj(before)} -> {proj(f)}")
+                if r0 == "commit" and before["token"] != f["token"]:
+                    n_app = int(t[2])
+                    if w.events.get(n_app, {}).get("sender") == c:
+                        # the echo of an own commit merges whatever commit is pending now (the latest staged one)
+                        mine = [n for n, e in w.events.items() if e["sender"] == c and e["kind"] == "commit" and e["parent_token"] == w.events[n_app].get("parent_token")]
+                        n_app = max(mine) if mine else n_app
+                    check_applied(i, cmd, c, n_app, before, f)
                 evd = w.events.get(int(t[2]), {})
                 if r0 == "commit" and evd.get("adv") and before["token"] != f["token"] and c != evd.get("sender") and f["epoch"] > before["epoch"]:
                     # (the crafter's own client is the adversary's business; a receiver that only ROLLED BACK for the
@@ -361,8 +555,16 @@ def oracle_world(w):
             prev_fp[c] = f
     # ---- convergence (C01) and messages (C02) at quiescence ----
     final = {c: w.fps.get(c) for c in range(w.n_clients)}
-    gone = gone_clients(w)
-    live = {c: f for c, f in final.items() if f is not None and c not in gone and f["state"] == "a" and str(c) in f["members"].split(",")}
+    # the remaining members: clients that hold the group actively and are on the roster of those furthest ahead (a client that
+    # was removed and never told is not; nor is one whose removal it has processed)
+    cand = {c: f for c, f in final.items() if f is not None and f["state"] == "a" and str(c) in f["members"].split(",")}
+    roster = None
+    if cand:
+        top = max(f["epoch"] for f in cand.values())
+        for f in cand.values():
+            if f["epoch"] == top:
+                roster = set(f["members"].split(",")) if roster is None else roster & set(f["members"].split(","))
+    live = {c: f for c, f in cand.items() if roster is None or str(c) in roster}
     facts = {"quiesced": getattr(w, "quiesced", None), "live": len(live), "commits": len(commits),
              "rollbacks": sum(1 for i in range(1, len(w.trace)) if False)}
     if getattr(w, "quiesced", False) and len(live) >= 2:
@@ -370,7 +572,7 @@ def oracle_world(w):
         if len(views) > 1:
             sig = classify_divergence(w, live)
             if sig == "divergence-unclassified":
-                knocked = [x["signature"] for x in fails if x["signature"] in ("rollback-before-authorisation", "rewrapped-commit-rollback")]
+                knocked = [x["signature"] for x in fails if x["signature"] in ("rollback-before-authorisation", "rewrapped-commit-rollback", "retagged-commit-rollback")]
                 sig = knocked[0] if knocked else sig
             facts["divergence"] = sig
             if sig != "fork-deeper-than-retention":
@@ -385,12 +587,13 @@ def oracle_world(w):
                     tok0 = parse_fp(fp)["token"]; break
             cur, chain, win_tokens = tok0, [], [tok0]
             while len(chain) < 64:
+                # (a copy of a commit under another wrapper competes with its own MIP-03 key, but leads where the original leads)
                 cands = [n for n, e in commits.items() if e["parent_token"] == cur and n not in chain and not e.get("adv")]
                 if not cands:
                     break
                 best = min(cands, key=lambda n: (commits[n]["ts"], commits[n]["idnum"]))
                 chain.append(best)
-                nxt = rt.get(best)
+                nxt = rt.get(best) or rt.get(root_of(w, best))
                 if not nxt:
                     cur = None; break
                 cur = sorted(nxt)[0]
@@ -399,8 +602,24 @@ def oracle_world(w):
             facts["winner_chain"] = chain
             facts["winner_tokens"] = win_tokens
             if cur is None or cur != common:
-                knocked = [x["signature"] for x in fails if x["signature"] in ("rollback-before-authorisation", "rewrapped-commit-rollback")]
+                knocked = [x["signature"] for x in fails if x["signature"] in ("rollback-before-authorisation", "rewrapped-commit-rollback", "retagged-commit-rollback")]
+                if not knocked and any(w.events.get(n, {}).get("kind") == "commit" and cc in live for (cc, n) in gnf_first):
+                    knocked = ["h-rotation-in-flight"]      # a sibling was never compared: it was not routed after a rotation
                 fail("C01", knocked[0] if knocked else "converged-not-mip03", len(w.trace) - 1, f"members agree on T{common} but the MIP-03 chain {chain} ends in T{cur}")
+    # C01: somebody the remaining members still have on their roster sits on an INACTIVE group: it processed a commit removing
+    # it that did not win (an eviction is carried out at once and is final: nothing is processed afterwards, so no rollback)
+    if getattr(w, "quiesced", False) and len(live) >= 1 and len({(f["epoch"], f["token"]) for f in live.values()}) == 1:
+        common = set(next(iter(live.values()))["members"].split(","))
+        for c, f in final.items():
+            if f is not None and f["state"] == "i" and str(c) in common:
+                fail("C01", "evicted-by-losing-commit", len(w.trace) - 1, f"c{c} holds the group as Inactive (evicted) but the remaining members agree on a state whose roster [{','.join(sorted(common))}] still contains it")
+    join_epoch = {}
+    for cmd, res, fp in w.trace:
+        t = cmd.split()
+        if t[0] == "accept" and res == "ok" and int(t[2]) in w.welcome_ev:
+            f = parse_fp(fp)
+            if f is not None:
+                join_epoch[int(t[1])] = f["epoch"]
     # C02: a message created on the winning branch ends stored, valid, at every remaining member
     if getattr(w, "quiesced", False) and live and facts.get("winner_tokens"):
         offered_at = first_offer_epochs(w)
@@ -410,6 +629,8 @@ def oracle_world(w):
             if e["parent_token"] not in facts["winner_tokens"]:
                 continue
             for c, f in live.items():
+                if e["parent_epoch"] is not None and e["parent_epoch"] < join_epoch.get(c, 0):
+                    continue        # sent before c joined: a newcomer holds no secret of earlier epochs (C03)
                 rows = [m for m in f["msgs"] if m["id"].rstrip("!") == e["mid"]]
                 rec = f["recs"].get(n)
                 at = offered_at.get((c, n))
@@ -419,16 +640,22 @@ def oracle_world(w):
                 ahead = at is not None and e.get("parent_epoch") is not None and at < e["parent_epoch"]
                 if not rows:
                     sig = "handshake-before-predecessor-blocked" if rec and rec[0] == "f" and rec[1] == "-" and ahead else "winning-message-missing"
+                    if (c, n) in gnf_first and rec and rec[0] == "f":
+                        sig = "h-rotation-in-flight"        # refused as GroupNotFound: its `h` tag was not the id in force at c
                     fail("C02", sig, len(w.trace) - 1, f"message {e['mid']} (event {n}, sent on the winning branch by c{e['sender']}) is not stored at c{c} (record {rec})")
                 elif rows[0]["state"] not in ("p",) and not (c == e["sender"] and rows[0]["state"] == "c" and rec is None):
                     if rows[0]["state"] != "x":
                         sig = "winning-message-not-valid"
+                        if c == e["sender"] and rows[0]["state"] == "c" and (c, n) in gnf_first:
+                            sig = "h-rotation-in-flight"    # the sender's own echo arrived after it had rotated the id: stays Created
                     elif str(rows[0]["epoch"]) != str(e["parent_epoch"]):
                         # received copies are filed under the receiver's epoch (open finding); the SENDER's own copy
                         # is filed by create_message under its creation epoch and must keep it
                         sig = "own-message-refiled" if c == e["sender"] else "receiver-epoch-tag"
-                    elif any(x["signature"] == "rewrapped-commit-rollback" for x in fails):
+                    elif any(x["signature"] == "rewrapped-commit-rollback" for x in fails) or c in copy_knock:
                         sig = "rewrapped-commit-rollback"   # correctly tagged, but the client was knocked back by a re-wrapped commit
+                    elif any(x["signature"] == "rollback-before-authorisation" for x in fails):
+                        sig = "rollback-before-authorisation"   # … or by a forged commit that was compared (and rolled back for) before it was refused
                     else:
                         sig = "winning-message-invalidated"
                     fail("C02", sig, len(w.trace) - 1, f"message {e['mid']} (event {n}, winning branch) is stored at c{c} in state {rows[0]['state']} (epoch tag {rows[0]['epoch']}, record {rec})")
@@ -491,11 +718,23 @@ def classify_divergence(w, live):
                 f = parse_fp(fp)
                 if f and f["recs"].get(n_ev, ("", ""))[0] == "f":
                     return "rewrapped-commit-rollback"
+    # somebody rolled back for a sibling re-published under its new id and did not find the group under the restored id
+    for cmd, res, fp in w.trace:
+        t = cmd.split()
+        if t[0] == "deliver" and res.split()[0] == "err:GroupNotFound" and w.events.get(int(t[2]), {}).get("retag") and w.events.get(int(t[2]), {}).get("kind") == "commit":
+            f = parse_fp(fp)
+            if f and any(st == "x" for st, _ in f["recs"].values()):
+                return "retagged-commit-rollback"
+    # a commit was refused as GroupNotFound at a live client because its `h` tag was not the id in force there (rotation)
+    for (c, n), step in getattr(w, "gnf_first", {}).items():
+        if c in live and commits.get(n) is not None and live[c]["recs"].get(n, ("", ""))[0] == "f":
+            return "h-rotation-in-flight"
     # a commit is blocked (Failed, no epoch) at a client that was first offered it while still BEHIND the commit's
     # parent epoch (the event ran ahead of its predecessor); a commit that could not be opened although the client was
     # at or past its epoch is a different matter (e.g. the exporter-secret look-back) and is not excused here
     epoch_before = {}
     prev_fp = {}
+    visited = {}
     for cmd, res, fp in w.trace:
         t = cmd.split()
         c = int(t[1]) if len(t) > 1 and t[1].isdigit() and t[0] not in ("rewrap", "retag") else None
@@ -507,11 +746,12 @@ def classify_divergence(w, live):
             f = parse_fp(fp)
             if f is not None:
                 prev_fp[c] = f
+                visited.setdefault(c, set()).add(f["token"])
     for c, f in live.items():
         for n, e in commits.items():
             rec = f["recs"].get(n)
-            # … and it is the very commit this client needs next (created on the state the client is stuck in)
-            if rec and rec[0] == "f" and rec[1] == "-" and e.get("parent_epoch") is not None and e.get("parent_token") == f["token"] \
+            # … and it is a commit this client needed (created on a state the client has been in)
+            if rec and rec[0] == "f" and rec[1] == "-" and e.get("parent_epoch") is not None and e.get("parent_token") in visited.get(c, ()) \
                     and epoch_before.get((c, n)) is not None and epoch_before[(c, n)] < e["parent_epoch"]:
                 return "handshake-before-predecessor-blocked"
     # restart between applying a commit and the arrival of a better competitor for the same epoch
@@ -567,8 +807,8 @@ def run_histories(seed, n, tier, gen=gen_race_history):
 
 # ---- correspondence with Model.Client ----------------------------------------------------------
 
-ERR_KINDS = {"GroupNotFound": "1", "Message": "2", "CommitFromNonAdmin": "3", "Group": "4"}
-MODEL_FIELDS = ("epoch", "token", "members", "admins", "name", "state", "pr", "last", "msgs_m", "recs_m", "snaps")
+ERR_KINDS = {"GroupNotFound": "1", "Message": "2", "CommitFromNonAdmin": "3", "Group": "4", "UpdateGroupContextExts": "5", "SelfUpdate": "6",
+             "OwnLeafNotFound": "7", "ExportSecret": "8", "MergePendingCommit": "10", "CreateMessage": "11"}
 
 def model_input(w):
     """translate the harness trace into the model driver's input lines; returns [(trace_index, line)]"""
@@ -581,7 +821,13 @@ def model_input(w):
         t = cmd.split()
         ev = re.search(r"ev=(\d+) idnum=(\d+) ts=(-?\d+)(?: mid=(\d+))?", res)
         if t[0] == "create":
-            out.append((i, f"setup {n} {w.meta['retention']} {pers} {admins} 1"))
+            members = ",".join(map(str, w.meta.get("members", range(n))))
+            out.append((i, f"setup {n} {w.meta['retention']} {pers} {admins} 1 {members}"))
+        elif t[0] == "add":
+            who = ",".join(str(w.kp_owner[int(k)]) for k in t[2].split(","))
+            out.append((i, f"add {t[1]} {who} {ev.group(1)} {ev.group(3)} {ev.group(2)}" if ev else f"add {t[1]} {who} 9999 0 0"))
+        elif t[0] == "accept" and int(t[2]) in w.welcome_ev and res == "ok":
+            out.append((i, f"join {t[1]} {w.welcome_ev[int(t[2])]}"))
         elif t[0] in ("world", "client", "kp", "welcome", "accept", "decline"):
             continue
         elif t[0] == "send":
@@ -589,8 +835,9 @@ def model_input(w):
             else: out.append((i, f"send {t[1]} 9999 0 0 9999 {100 + int(t[2])} {t[2]}"))
         elif t[0] == "selfupdate":
             out.append((i, f"selfupdate {t[1]} {ev.group(1)} {ev.group(3)} {ev.group(2)}" if ev else f"selfupdate {t[1]} 9999 0 0"))
-        elif t[0] == "data" and t[2] == "name":
-            out.append((i, f"name {t[1]} {t[3]} {ev.group(1)} {ev.group(3)} {ev.group(2)}" if ev else f"name {t[1]} {t[3]} 9999 0 0"))
+        elif t[0] == "data" and all(f in ("name", "desc", "relays", "admins", "nid") for f in t[2:-1:2]):
+            fields = " ".join(t[2:-1])
+            out.append((i, f"data {t[1]} {ev.group(1)} {ev.group(3)} {ev.group(2)} {fields}" if ev else f"data {t[1]} 9999 0 0 {fields}"))
         elif t[0] == "leave":
             out.append((i, f"leave {t[1]} {ev.group(1)} {ev.group(3)} {ev.group(2)}" if ev else f"leave {t[1]} 9999 0 0"))
         elif t[0] == "remove":
@@ -611,6 +858,9 @@ def model_input(w):
             out.append((i, f"deliver {t[1]} {t[2]}" + (f" {ev.group(1)} {ev.group(2)} {ev.group(3)}" if ev else "")))
         elif t[0] == "rewrap":
             out.append((i, f"rewrap {t[1]} {ev.group(1)} {ev.group(3)} {ev.group(2)}" if ev else "bad"))
+        elif t[0] == "retag":
+            if ev:
+                out.append((i, f"retag {t[1]} {t[2]} {ev.group(1)} {ev.group(3)} {ev.group(2)}"))
         else:
             out.append((i, "unsupported " + cmd))
     return out
@@ -624,18 +874,20 @@ def norm_res(res, impl):
         return "err:" + (ERR_KINDS.get(k, "9") if impl else k)
     return r
 
-def fp_view(fp, skip_recs=()):
-    f = parse_fp(fp) if "D" in fp and " I" in fp else None
+def fp_view(fp, skip_recs=(), nids=None):
+    """the compared fields of a fingerprint (implementation's or model's); `nids` renumbers the nostr group ids by
+    first occurrence within one side of one world (the harness numbers the ids it sees, the model has its own)"""
+    f = parse_fp(fp)
     if f is None:
-        m = re.match(r"E(\d+) T(-?\d+) M\[([^\]]*)\] A\[([^\]]*)\] N(\S*) S(\w) PR\[([^\]]*)\] L(\S+) X\[([^\]]*)\] K\[([^\]]*)\] Z(\d+)", fp)
-        if not m:
-            return fp
-        return (m.group(1), m.group(2), m.group(3), m.group(4), m.group(5), m.group(6), m.group(7), m.group(8), m.group(9), m.group(10), m.group(11))
+        return fp
     msgs = ",".join(f"{m['id']}:{m['author']}:{m['state']}:{m['epoch']}:{m['wrapper']}:{m['tok']}" for m in f["msgs"])
     recs = ",".join(f"{n}:{s}:{e}" for n, (s, e) in sorted(f["recs"].items()) if n not in skip_recs)
-    return (str(f["epoch"]), str(f["token"]), f["members"], f["admins"], f["name"], f["state"], f["pr"], f["last"], msgs, recs, str(f["snaps"]))
+    nid = f["nid"] if nids is None else str(nids.setdefault(f["nid"], len(nids)))
+    return (str(f["epoch"]), str(f["token"]), f["members"], f["admins"], f["name"], f["desc"], nid, f["relays"], f["state"], f["pa"], f["pr"],
+            f["last"], msgs, recs, str(f["snaps"]))
 
-FIELD_NAMES = ("epoch", "token", "members", "admins", "name", "state", "pending_removes", "last_message", "messages", "records", "snapshots")
+FIELD_NAMES = ("epoch", "token", "members", "admins", "name", "description", "nostr_group_id", "relays", "state", "pending_adds", "pending_removes",
+               "last_message", "messages", "records", "snapshots")
 
 def correspondence(worlds):
     """replays every trace on the Lean model and diffs result kind + fingerprint fields"""
@@ -652,6 +904,7 @@ def correspondence(worlds):
     k = 0
     for w, mi in inputs:
         failed = False
+        nid_i, nid_m = {}, {}
         for idx, line in mi:
             mo = out[k] if k < len(out) else "<missing>"; k += 1
             cmd, res, fp = w.trace[idx]
@@ -664,7 +917,7 @@ def correspondence(worlds):
             if a != b and not (a.startswith("err:9") and b.startswith("err:")):
                 diff = f"result impl={res.split()[0]} model={mres}"
             else:
-                va, vb = fp_view(fp, {k for k, e in w.events.items() if e.get("unmodelled")}), fp_view(mfp)
+                va, vb = fp_view(fp, {k for k, e in w.events.items() if e.get("unmodelled")}, nid_i), fp_view(mfp, (), nid_m)
                 if isinstance(va, tuple) and isinstance(vb, tuple):
                     for name, x, y in zip(FIELD_NAMES, va, vb):
                         if x != y:
@@ -786,7 +1039,7 @@ def replay_world(path, wid=None):
     """execute a stored command trace (corpus / replay file) on the harness; result lines in the file are ignored"""
     w = World(wid or f"corpus:{os.path.basename(path)}")
     cmds = [l.strip() for l in open(path) if l.strip() and not l.startswith("#")]
-    backends, retention, admins = [], 5, [0]
+    backends, retention, admins, members = [], 5, [0], None
     try:
         for c in cmds:
             t = c.split()
@@ -796,19 +1049,17 @@ def replay_world(path, wid=None):
                 backends.append(t[2]); retention = int(t[3])
             if t[0] == "create":
                 admins = [int(x) for x in t[2].split(",") if x not in ("", "-")]
-            if t[0] in ("send", "selfupdate", "data", "leave", "advremove", "advgce", "remove", "advupdate"):
+                members = [int(t[1])] + [w.kp_owner[int(k)] for k in t[5].split(",") if k not in ("", "-")]
+            if t[0] in ("send", "selfupdate", "data", "leave", "advremove", "advgce", "remove", "advupdate", "add"):
                 kind = "app" if t[0] == "send" else ("proposal" if t[0] in ("leave", "advupdate") else "commit")
                 e = w.publish(c, kind, int(t[1]))
                 if e is not None and t[0] == "advupdate":
                     w.events[e]["unmodelled"] = True
                 if e is not None and t[0] in ("advremove", "advgce"):
-                    w.events[e]["adv"] = True
-            elif t[0] == "rewrap":
-                r, _ = w.do(c)
-                m = re.match(r"ev=(\d+) idnum=(\d+) ts=(-?\d+)", r)
-                if m:
-                    k, victim = int(m.group(1)), int(t[1])
-                    w.events[k] = dict(w.events.get(victim, {})); w.events[k].update({"ts": int(m.group(3)), "idnum": int(m.group(2)), "rewrap_of": victim})
+                    # unauthorised iff the crafter is not an admin in the state it crafts the commit in
+                    w.events[e]["adv"] = (t[0] == "advgce") or not w.events[e].get("sender_admin")
+            elif t[0] in ("rewrap", "retag"):
+                w.republish(c)
             elif t[0] == "deliver":
                 w.deliver(int(t[1]), int(t[2]))
             else:
@@ -816,6 +1067,8 @@ def replay_world(path, wid=None):
                 if t[0] == "client":
                     w.n_clients += 1; w.backends.append(t[2])
         w.meta = {"n": len(backends), "backends": backends, "admins": admins, "retention": retention}
+        if members is not None:
+            w.meta["members"] = sorted(members)
         w.quiesced = False
     except RuntimeError as e:
         w.crashed = str(e)
